@@ -266,6 +266,9 @@ func BigEqual(x *big.Int, v uint64, signed bool) bool {
 	return x.Cmp(new(big.Int).SetUint64(v)) == 0
 }
 
+// BigBits restricts the magnitude of subsequent BigInt values to 2^bits (engine only; natively the witness decides).
+func BigBits(bits int) {}
+
 // BigInt returns an arbitrary integer with |v| < 2^128.
 func BigInt(name string) *big.Int {
 	hi, lo, neg := Uint64(name+".hi"), Uint64(name+".lo"), Bool(name+".neg")
